@@ -187,17 +187,18 @@ def gen_deps(prop_dir):
             continue
         seen.add(f)
         txt = strip_comments(open(f, encoding="utf-8").read())
-        for m in re.finditer(r"Require\s+(?:Import|Export)\s+([^.]*(?:\.[A-Za-z_][^.\s]*)*)\.", txt):
-            pass
-        for m in re.finditer(r"(?:From\s+JrV\s+)?Require\s+(?:Import|Export)\s+((?:[\w.]+\s*)+)\.", txt):
-            for mod in m.group(1).split():
+        for m in re.finditer(r"Require\s+(?:Import|Export)\s", txt):
+            end = re.compile(r"\.(?:\s|$)").search(txt, m.end())
+            mods = txt[m.end():end.start() if end else len(txt)].split()
+            for mod in mods:
                 mod = mod[4:] if mod.startswith("JrV.") else mod
                 parts = mod.split(".")
                 if len(parts) == 2 and parts[0] == "Gen":
                     gens.add(parts[1])
-                cand = os.path.join(base, *parts) + ".v"
-                if os.path.exists(cand):
-                    todo.append(cand)
+                if all(re.fullmatch(r"\w+", x) for x in parts):
+                    cand = os.path.join(base, *parts) + ".v"
+                    if os.path.exists(cand):
+                        todo.append(cand)
     return gens
 
 
